@@ -168,6 +168,20 @@ def big_case(draw):
     return {"sig": spec, "shape": [], "vals": [float(a * rate / n / O.FREQ_UNITS[un])], "unit": un}
 
 
+@st.composite
+def huge_case(draw):
+    """N ~ 10^6: bin counts of 10^5 .. 10^6 with a small fractional part (a relative snapping tolerance would swallow it), complex128 data"""
+    n = draw(st.sampled_from([2**20, 2**20 + 2, 1500000, 2**21]))
+    spec = draw(G.signal_spec(classes=["BasebandSignal"], nmin=1, nmax=1, nchan_max=1, max_trailing=0, sr=G.freq_q(0, 9), data_kinds=("noise",),
+                              dtypes=["c16"], start="none", with_meta=False))
+    spec["n"] = n
+    base = draw(st.integers(n // 2, n - 2)) * draw(st.sampled_from([1, -1]))
+    frac = draw(st.sampled_from([F(1, 2**11), F(1, 10**4), F(1, 2), F(0), F(1, 2**13), -F(1, 2**11), F(1, 10**5)]))
+    a = F(base) + frac
+    rate = O.fq(spec["sr"])
+    return {"sig": spec, "shape": [], "vals": [float(a * rate / n)], "unit": "Hz"}
+
+
 def run_big(case, stt):
     run_fs(case, stt)
     N = case["sig"]["n"]
@@ -185,7 +199,7 @@ def hist_case(draw):
     for _ in range(draw(st.integers(1, 4))):
         kind = draw(st.sampled_from(["rate", "rate", "data", "shift", "unit", "cf", "same"]))
         steps.append([kind, draw(st.sampled_from([2.0, 0.5, 4.0, 3.0, 0.25])), draw(st.integers(0, 2**31 - 1))])
-    return {"base": base, "steps": steps, "one_object": draw(st.booleans())}
+    return {"base": base, "steps": steps, "one_object": draw(st.sampled_from([False, True, "refusals"]))}
 
 
 def run_hist(case, stt):
@@ -247,6 +261,9 @@ SUBS = [
     Sub("large_N", big_case(), run_big,
         "N in {1000..8192}, shifts of hundreds to thousands of bins with small fractional parts, numpy.fft complex128 reference; non-trivial = "
         "|shift| >= 500 bins with a non-zero fractional part", quick=160, thorough=3000, pieces_quick=4),
+    Sub("huge_N", huge_case(), run_big,
+        "N in {2^20, 2^20+2, 1.5e6, 2^21}, one channel, complex128, shifts of N/2 .. N bins plus a fractional part of 2^-13 .. 1/2 bin (or none); "
+        "non-trivial as for large_N", quick=8, thorough=64, pieces_quick=2, pieces_thorough=8, budget_quick=150),
     Sub("call_history", hist_case(), run_hist,
         "the same freq_shift call repeated 2..5 times in one process with exactly one ingredient changed per step (sample rate with the "
         "same shift in Hz, data, shift value, unit spelling, centre frequency), each result checked against the DFT oracle; half of the histories run on ONE signal object re-assigned through its setters / in-place ufuncs between the calls, the others on fresh signals; non-trivial = "
